@@ -83,8 +83,12 @@ fn mix(seed: u64, n: u64) -> u64 {
 // order of the operands in every comparison the crate makes is observable
 fn cls_truth(a: u64, b: u64) -> bool {
     let asym = with_ctx(|c| c.adv && c.seed % 5 == 3);
-    if asym { a <= b } else { a == b }
+    if asym { if FLIP.load(std::sync::atomic::Ordering::Relaxed) { b <= a } else { a <= b } } else { a == b }
 }
+/// MM_FLIP=1: the asymmetric kind answers with the operands swapped.  Used by the driver only to CLASSIFY a
+/// difference under that kind: a crate that uses ONE relation throughout, with the operands of every comparison the
+/// other way round than the model, agrees with the model under the flipped == (no property is concerned by that)
+pub static FLIP: std::sync::atomic::AtomicBool = std::sync::atomic::AtomicBool::new(false);
 
 // every ==: Key==Key, Cls==Cls, Val==Val
 fn eq_cb(truth: bool) -> bool {
